@@ -71,7 +71,10 @@ def track(text):
 
 
 def core_doc(adoc):
-    """syntactic core: signatures only in the preamble and of the same kind in every spine, no split open at a barline, no nested split"""
+    """syntactic core: signatures only in the preamble and of the same kind in every spine, no split open at a barline; of nested splits
+    only those in which at most one branch of a split is split again (both branches split again = finding F15d)"""
+    if adoc.get('profile') == 'nested-split':
+        return adoc['nest'] != 'both'
     seen_bar = False
     depth = {}
     for row in adoc['rows']:
@@ -97,10 +100,11 @@ def core_doc(adoc):
 
 
 def explore(ctx, depth):
-    import docrun
+    import docrun, gen
     import kernpy as kp
     n = 30 if depth == 'quick' else 300
     core = docrun.make_cases(ctx, n, kern_only=True, profiles=('core',), split_depth=1, max_measures=4)
+    core += docrun.make_cases(ctx, 0, docs=[gen.nested_split_doc(ctx.rng) for _ in range(n)])
     frontier = docrun.make_cases(ctx, n, kern_only=False, profiles=('free', 'core'), split_depth=2, max_measures=4)
     for stream, cases in (('core', core), ('frontier', frontier)):
         exps = []
@@ -175,6 +179,7 @@ def classify(adoc, a):
                 if c['k'] == 'op' and row['live'].count(s) > 1:
                     return 'F15d-nested-split'
     return 'F15b-start-inside-split'
+
 
 
 def first_bar(adoc):
